@@ -303,6 +303,7 @@ var discardTable = map[string]string{
 	"makeConstWithPrecision -> (*Context).Round":           "package constant; error is checked",
 	"(*Context).Ln -> (*Decimal).SetFloat64":               "initial estimate only",
 	"(*Context).Cbrt -> (*Context).goError":                "kept: res,err both used",
+	"(*Context).Cbrt -> (*Context).round":                  "the nearest-rounded candidate of the exactness test: its flags describe a value that is only compared with the operand (the result's own rounding is a second call, whose flags are returned)",
 }
 
 // partialDropOK: (function -> callee) pairs whose flags are deliberately left out of some returns.
